@@ -114,7 +114,7 @@ def run_check(pid, tier, seed, PROPS, verbose=False):
     repo = Repo()
     reg = load_all()
     sel = [c.key for c in reg.all_contracts() if cfg['select'](c) and not c.trusted]
-    z3_ms, cvc5_ms = (5000, 20000) if tier == 'quick' else (30000, 120000)
+    z3_ms, cvc5_ms = (15000, 60000) if tier == "quick" else (60000, 240000)
     eng, results, t_sym, t_solve = verify_contracts(reg, set(sel), repo, z3_ms, cvc5_ms)
     R = classify(results, pid)
     known = [k for k in load_known() if k['property'] == pid and k.get('status', 'open') == 'open']
